@@ -131,6 +131,9 @@ func c16Stale(c *fw.Ctx, r *rand.Rand, idx int) {
 		}
 		c.Count("stale_parked", 1)
 		kind := r.Intn(6)
+		if round == 0 && r.Intn(3) == 0 {
+			kind = 6
+		}
 		c.Count(fmt.Sprintf("supersede_kind_%d", kind), 1)
 		switch kind {
 		case 0: // isready while the search is parked: must be answered without waiting for the search
@@ -180,6 +183,49 @@ func c16Stale(c *fw.Ctx, r *rand.Rand, idx int) {
 			if bms := s.bestmovesBetween(goMark, end2); len(bms) > 0 {
 				c.Violate("driver:stale-bestmove", "search superseded by ucinewgame (while provably still running) was answered by %v: %s", bms, what())
 			}
+		case 6: // clock expiry and an engine-side halt overlap while the search cannot finish: the engine-side halt
+			// must still wait for the search to unwind before the next search starts (shared noise generator)
+			s.gate.open()
+			s.waitLine(goMark, isBestmove, uciWatchdog)
+			s.sync()
+			s.send("setoption name Noise value 60")
+			s.send("ucinewgame")
+			s.send(positionCmd(h.Start, h.Moves, true))
+			curGate.Store(nil) // keep the search parked across the halts: released by hand below
+			blocked2 := s.gate.arm(int64(len(ms)) + 2 + int64(r.Intn(10)))
+			gm := s.send("go wtime 240 btime 240")
+			select {
+			case <-blocked2:
+			case <-time.After(300 * time.Millisecond):
+				s.gate.open()
+				curGate.Store(s.gate)
+				s.waitLine(gm, isBestmove, uciWatchdog)
+				s.sync()
+				continue
+			}
+			time.Sleep(30 * time.Millisecond) // the hard limit (9 ms) has expired: its Halt is waiting for the search
+			s.send(positionCmd(h.Start, g2moves, true))
+			s.send("go depth 2")
+			time.Sleep(25 * time.Millisecond)
+			s.gate.open() // only now can the old search unwind
+			curGate.Store(s.gate)
+			_, _, ok := s.waitLine(gm, isBestmove, uciWatchdog)
+			end, synced := s.sync()
+			if !synced {
+				c.Violate("driver:no-readyok", "isready unanswered after clock expiry and position+go overlapped: %s\n%s", what(), stacks())
+				return
+			}
+			_ = end
+			end2, _ := s.sync()
+			bms := s.bestmovesBetween(gm, end2)
+			c.Eval(1)
+			c.Count("timer_overlap_scenarios", 1)
+			if !ok || len(bms) != 1 {
+				c.Violate("driver:supersede-count", "go wtime / (clock expires) / position / go answered %d times %v, one answer (for the second go) is due: %s", len(bms), bms, what())
+			} else if why, ok := legalBestmove(bms[0], p2); !ok {
+				c.Violate("driver:stale-bestmove", "the answer after the overlap is %q, which does not belong to the position last set up: %s: %s", bms[0], why, what())
+			}
+			s.send("setoption name Noise value 0")
 		default: // superseded by position + go: exactly one answer, and it belongs to the new position
 			s.send(positionCmd(h.Start, g2moves, true))
 			s.send("go depth 1")
@@ -207,6 +253,65 @@ func c16Stale(c *fw.Ctx, r *rand.Rand, idx int) {
 	if idx%64 == 0 {
 		c.Sample(map[string]any{"kind": "stale", "engine": rc.name, "transcript": s.transcript(14)})
 	}
+}
+
+// c16Late: a search that ends by itself at the very moment it is superseded. Its answer may be emitted
+// before the superseding command is processed, or not at all - but never after the driver has
+// acknowledged (readyok) that it processed the superseding command.
+func c16Late(c *fw.Ctx, r *rand.Rand, idx int) {
+	rc := &recipes[r.Intn(len(recipes))]
+	opts, _ := recipeOptions(r, rc)
+	s := newUCISession(rc, opts, 0, false, 1, false)
+	what := func() string { return fmt.Sprintf("engine %s options %v: %s", rc.name, opts, s.transcript(24)) }
+	defer s.shutdown(r.Intn(2) == 0)
+	if _, ok := s.sync(); !ok {
+		return
+	}
+	// calibrate: how long does a depth-1 search take to be answered here and now (hook delays included)?
+	s.send("position startpos")
+	s.sync()
+	t0 := time.Now()
+	cm := s.send("go depth 1")
+	s.waitLine(cm, isBestmove, uciWatchdog)
+	typical := time.Since(t0)
+	s.sync()
+	for round := 0; round < 8; round++ {
+		h := gen.Playout(r, gen.Starts()[[]int{0, 1, 5, 25, 26}[r.Intn(5)]], 2+r.Intn(12), gen.Neutral)
+		g1 := ref.NewGameFrom(h.Start, h.Moves)
+		ms := g1.Cur.LegalMoves()
+		if len(ms) == 0 {
+			continue
+		}
+		g2moves := append(append([]ref.Move{}, h.Moves...), ms[r.Intn(len(ms))])
+		s.send(positionCmd(h.Start, h.Moves, true))
+		s.sync()
+		goMark := s.send([]string{"go depth 1", "go depth 1", "go movetime 1", "go wtime 1 btime 1"}[r.Intn(4)])
+		// aim the superseding command at the moment the search is being answered
+		time.Sleep(time.Duration(float64(typical) * (0.3 + 0.9*r.Float64())))
+		s.send([]string{positionCmd(h.Start, g2moves, true), "ucinewgame"}[r.Intn(2)])
+		ack, ok := s.sync()
+		if !ok {
+			c.Violate("driver:no-readyok", "isready unanswered: %s\n%s", what(), stacks())
+			return
+		}
+		time.Sleep(8 * time.Millisecond)
+		end, _ := s.sync()
+		c.Eval(1)
+		c.Count("late_answer_probes", 1)
+		before := s.bestmovesBetween(goMark, ack)
+		after := s.bestmovesBetween(ack, end)
+		if len(before) > 0 {
+			c.Count("answered_before_supersession", 1)
+		}
+		if len(after) > 0 {
+			c.Violate("driver:stale-bestmove", "%v emitted after the driver acknowledged the command that superseded the search: %s", after, what())
+			return
+		}
+		if len(before) > 1 {
+			c.Violate("driver:duplicate-bestmove", "search answered %d times %v: %s", len(before), before, what())
+		}
+	}
+	c.Distinct(s.transcript(1000))
 }
 
 // c16Hostile: random command scripts incl. malformed lines; every isready answered, clean shutdown.
@@ -543,12 +648,13 @@ func init() {
 		Timeout:     minutes(15, 120),
 		Cases: func(tier string, seed int64) []fw.Case {
 			l := mkCases(nil, "stale", 32, seed, pick(tier, 4, 150))
+			l = mkCases(l, "late", 16, seed, pick(tier, 4, 150))
 			l = mkCases(l, "hostile", 32, seed, pick(tier, 5, 200))
 			l = mkCases(l, "blackbox", 16, seed, pick(tier, 2, 60))
 			return l
 		},
 		Floors: func(string) map[string]int64 {
-			return map[string]int64{"stale_sessions": 100, "stale_parked": 150, "hostile_sessions": 150, "isready_answered": 300, "final_go_checks": 100, "quit_during_search": 20, "leak_checks": 30, "blackbox_sessions": 25, "blackbox_gos": 40, "hook_points_seen": 8}
+			return map[string]int64{"stale_sessions": 100, "stale_parked": 150, "hostile_sessions": 150, "isready_answered": 300, "final_go_checks": 100, "quit_during_search": 20, "leak_checks": 30, "timer_overlap_scenarios": 5, "late_answer_probes": 150, "answered_before_supersession": 20, "blackbox_sessions": 25, "blackbox_gos": 40, "hook_points_seen": 8}
 		},
 		Run: func(c *fw.Ctx, cs fw.Case) {
 			r := cs.Rand()
@@ -559,6 +665,11 @@ func init() {
 					c16Stale(c, r, cs.Idx*1000+i)
 				}
 				leakCheck(c)
+			case "late":
+				defer installDriverHooks(cs.Seed, []int{3, 3, 2, 0}[cs.Idx%4])()
+				for i := 0; i < cs.N; i++ {
+					c16Late(c, r, cs.Idx*1000+i)
+				}
 			case "hostile":
 				defer installDriverHooks(cs.Seed, cs.Idx%4)()
 				for i := 0; i < cs.N; i++ {
